@@ -219,23 +219,6 @@ def has_empty_level(prefix):
     return any(t.startswith(b'/') or t.endswith(b'/') or b'//' in t for op in prefix for t in _topics_in(op))
 
 
-def cb_retain_forward(prefix, impl, spec):
-    """E10: an in-process callback is handed a live forward with RETAIN still set.  The deviation is
-    exactly that: with the flag cleared in the callback groups the oracle is satisfied."""
-    if impl is None or spec is None or 'cb' not in impl:
-        return False
-    def clear(m):
-        items = []
-        for it in m.group(2).split(';'):
-            w = it.split()
-            if len(w) == 7 and w[0] == 'PUB':
-                w[3] = '0'
-            items.append(' '.join(w))
-        return '%s[%s]' % (m.group(1), ';'.join(items))
-    fixed = re.sub(r'(cb\d+)\[([^\]]*)\]', clear, impl)
-    return fixed != impl and broker_oracle(prefix[-1], fixed, spec)
-
-
 def overlap_episode(prefix, impl=None, spec=None):
     """two live connections presented the same client identifier earlier in the episode: the broker keeps
     both on one shared session (no take-over); the specification leaves everything after that open and what
@@ -266,8 +249,8 @@ BROKER_ASSUMPTIONS = [
 
 def mk(pid, module, runs, classes=None):
     register(Prop(pid, module, ['broker'], runs=runs, oracle=broker_oracle, nontrivial=broker_nontrivial,
-                  spec_total=False, unspecified=overlap_episode, classes=dict({'empty_level': has_empty_level,
-                                'cb_retain_forward': cb_retain_forward}, **(classes or {})),
+                  spec_total=False, unspecified=overlap_episode,
+                  classes=dict({'empty_level': has_empty_level}, **(classes or {})),
                   assumptions=BROKER_ASSUMPTIONS, trusted=COMMON_TRUSTED + [
                       "regenerated facts: topics.MaxQosAllowed, message.SupportedVersions, Ackqueue tables"]))
 
@@ -295,6 +278,6 @@ register(Prop('C05', 'Mqtt.Properties.C05', ['broker'],
                     Run('broker-iso-sweep', quick=2500, thorough=30000, seeds_thorough=2)],
               oracle=broker_oracle, nontrivial=broker_nontrivial, spec_total=False,
               unspecified=overlap_episode,
-              classes={'empty_level': has_empty_level, 'cb_retain_forward': cb_retain_forward},
+              classes={'empty_level': has_empty_level},
               assumptions=C05_ASSUMPTIONS, trusted=COMMON_TRUSTED + [
                   "regenerated facts: framing limits (l > 4, cnt from 2 to 5), ring size, deferred recover in handleConnection/processor, non-fatal processIncoming errors do not end the processor, packet-type and codec tables"]))
